@@ -87,6 +87,12 @@ func Saturate() {
 // with the saturating past?  (Replays derive it from the same index.)
 func SaturateFor(jobFrom int) bool { return (jobFrom/11)%3 == 1 }
 
+// SaturateBefore: in such a process the past is refreshed before the first
+// and every fourth run after it, so that the maintenance paths a full memo
+// sends its next caller down (trim, evict, rehash) are met by the simulated
+// callers of many runs, not of the process's first run only.
+func SaturateBefore(jobFrom, idx int) bool { return SaturateFor(jobFrom) && (idx-jobFrom)%4 == 0 }
+
 type zeroReader struct{}
 
 func (zeroReader) Read(p []byte) (int, error) {
